@@ -85,6 +85,10 @@ func c10(r *core.Run) {
 			if pilot.Sim != nil && pilot.Sim.Client != nil {
 				pilot.Sim.Client.Close()
 			}
+			if !pilot.Returned && pilot.StuckBusy {
+				r.Inconclusive("pilot still computing after the extended watchdog: " + sc.Name)
+				continue
+			}
 			if !pilot.Returned {
 				r.Violation("does-not-return:deadline:extra-headers", fmt.Sprintf("scenario %s: Do did not return after its 300 ms deadline:\n%s", sc.Name, clipS2(pilot.StuckStacks, 3000)), sc.Name)
 				continue
@@ -161,6 +165,11 @@ func c10One(r *core.Run, sc scn, seed int64, f *fault) {
 		// the cancellation was never issued (gate not reached in this schedule) and this server
 		// never ends the query: nothing to judge
 		r.Count("gate_not_reached", 1)
+		conn.Close()
+		return
+	}
+	if !o.Returned && o.StuckBusy {
+		r.Inconclusive(fmt.Sprintf("%s %s: Do still computing after the extended watchdog (no stuck state)", sc.Name, f))
 		conn.Close()
 		return
 	}
@@ -320,7 +329,7 @@ func c10Handshake(r *core.Run, ci int64, k int) {
 			cancel()
 		}
 	}()
-	ok := runWithWatchdog(10*time.Second, func() {
+	ok := runWithStuckWatchdog(10*time.Second, func() {
 		// the handshake timeout must not be what ends a cancelled handshake
 		client, err = ch.Connect(ctx, sim.Conn, ch.Options{ReadTimeout: 50 * time.Millisecond, HandshakeTimeout: time.Hour})
 	})
